@@ -505,6 +505,15 @@ impl<B> RequestInspector<'_, B> {
     }
 }
 
+#[cfg(feature = "verif-hooks")]
+impl<B> RequestBuilder<B> {
+    /// Read-only snapshot of the settings this request will be sent with.
+    #[doc(hidden)]
+    pub fn verif_settings(&self) -> crate::verif_hooks::SettingsSnapshot {
+        crate::verif_hooks::snapshot(&self.base_settings)
+    }
+}
+
 #[test]
 #[cfg(feature = "tls-native")]
 fn test_accept_invalid_certs_disabled_by_default() {
